@@ -9,6 +9,8 @@ CONSTANTS
   TimerOn = TRUE
   WithFail = TRUE
   MaxOps = 1000
+  Muts = {"same", "grow", "shrink"}
   ResetOnError = TRUE
   AddBeforeChecks = TRUE
   RemoveWhole = TRUE
+  MeasureOnArrival = TRUE
